@@ -138,6 +138,11 @@ def make_renamings(r: random.Random, names: list[str]) -> list[tuple[str, dict[s
 			add(label.replace('suffix', 'prefix'), {k: v[::-1] if not v[::-1][0].isdigit() else 'p' + v[::-1] for k, v in m.items()})
 	# private / protected names with further double underscores inside and at the end
 	add('inner-dunder', {n: (f'{n}__key' if i % 2 else f'{n}__x__y') if n.startswith('_') else f'{n}_k' for i, n in enumerate(names)})
+	# user names that end (or begin) with a word tranp gives a meaning to when it stands alone
+	words = ['Generic', 'Enum', 'Callable', 'object', 'None', 'self', 'cls', 'super', 'ClassVar', 'TypeVar', 'property', 'classmethod', 'Exception', 'list', 'dict', 'str', 'int']
+	add('all-generic-suffix', {n: f'{n}Generic' for n in names})
+	add('reserved-suffix', {n: f'{n}{words[i % len(words)]}' for i, n in enumerate(names)})
+	add('reserved-prefix', {n: f'{words[(i + 3) % len(words)]}{n}' if not n.startswith('_') else f'{n}{words[i % len(words)]}' for i, n in enumerate(names)})
 	add('double-underscore', {n: (f'zq__{n}' if i % 2 else f'{n}__init__') for i, n in enumerate(names)})
 	add('self-cls-super', {n: ['self', 'cls', 'super', 'selfself'][i % 4] + n for i, n in enumerate(names)})
 	tags = ['name', 'var', 'block', 'class_def', 'function_def', 'getattr', 'funccall', 'assign', 'file_input', 'typedparam']
